@@ -187,6 +187,7 @@ fn main() {
         "exec-stream" => stream::cmd_exec(&args),
         "exec-one" => stream::cmd_exec_one(&args),
         "gen-secrets" => stream::cmd_gen_secrets(&args),
+        "gen-fuzz-corpus" => stream::cmd_gen_fuzz_corpus(&args),
         "replay" => cmd_replay(&args),
         _ => {
             eprintln!("usage: driver <selftest|run|replay> ...");
